@@ -1,5 +1,6 @@
 from dataclasses import dataclass
 from functools import partial
+from inspect import getattr_static
 from types import FunctionType, MethodType
 from typing import TYPE_CHECKING, Any, Mapping, Optional, Type, TypeVar
 
@@ -43,10 +44,12 @@ class ValidatorMock:
             return set(values)
         if hasattr(cls, name):
             member = getattr(cls, name)
-            # for classmethod (staticmethod are not handled)
+            # for classmethod
             if isinstance(member, MethodType):
                 return member
             if isinstance(member, FunctionType):
+                if isinstance(getattr_static(cls, name), staticmethod):
+                    return member
                 return partial(member, self)
             if isinstance(member, property):
                 return member.fget(self)  # type: ignore
